@@ -180,6 +180,56 @@ def dumpstructs(ctx, n):
                               engine.case_detail(case, cfg=cfgd, data=inp, color=color, error=lib.exc_sig(e)))
 
 
+def dumpstruct_after_assignment(ctx):
+    """dumpstruct shows the structure as it *is*: after fields of a parsed instance were assigned, the listing shows
+    the new values next to the hex dump of the new bytes (not what was recorded when it was parsed)."""
+    from dissect.cstruct import dumpstruct
+
+    text = ("struct sub { uint8 x; uint16 y; };\nstruct s { uint16 magic; uint8 n; uint8 items[3]; char tag[4]; sub in; "
+            "uint8 a : 4; uint8 b : 4; uint32 tail; };")
+    for compiled in (True, False):
+        for endian in "<>":
+            ctx.evaluation(("dumpstruct-after-assignment", compiled, endian))
+            ctx.cell("dumpstruct:after-assignment")
+            det = {"text": text, "compiled": compiled, "endian": endian, "workload": "dumpstruct-after-assignment"}
+            try:
+                cs = lib.load(text, endian, False, compiled)
+                o = cs.s(bytes(range(1, 1 + len(cs.s))))
+                o.magic = 0xBEEF
+                o.items = [7, 8, 9]
+                o.tag = b"WXYZ"
+                o.a = 0xC
+                o.tail = 0x11223344
+                o.n = 0x7F
+                out = ANSI.sub("", dumpstruct(o, color=False, output="string"))
+                out_c = ANSI.sub("", dumpstruct(o, color=True, output="string"))
+                need = ["- magic: 0xbeef", "- n: 0x7f", "- items: [7, 8, 9]", "- tag: b'WXYZ'", "- a: 0xc", "- tail: 0x11223344"]
+                missing = [x for x in need if x not in out or x not in out_c]
+                if ref_hexdump(o.dumps()) not in out:
+                    missing.append("hexdump of the current bytes")
+            except Exception as e:  # noqa: BLE001
+                ctx.violation("dumpstruct", f"dumpstruct-raises:{type(e).__name__}", dict(det, error=lib.exc_sig(e)))
+                continue
+            if missing:
+                ctx.violation("dumpstruct", "dumpstruct-lists-stale-values-after-assignment", dict(det, missing=missing, got=out))
+            else:
+                ctx.event("dumpstruct_after_assignment_checked")
+        # a structure reached through two levels of unions
+        ctx.evaluation(("dumpstruct-nested-union-member", compiled))
+        try:
+            cs = lib.load("struct s { uint8 x; uint16 y; };\nunion inner { s a; uint32 b; };\nunion outer { inner i; uint8 raw[4]; };\n"
+                          "struct w { outer o; uint8 z; };", "<", False, compiled)
+            for member in (cs.outer(b"\x01\x02\x03\x04").i.a, cs.w(b"\x01\x02\x03\x04\x05").o.i.a):
+                o2 = ANSI.sub("", dumpstruct(member, color=False, output="string"))
+                if ref_hexdump(b"\x01\x02\x03") not in o2 or "- x: 0x1" not in o2 or "- y: 0x302" not in o2:
+                    ctx.violation("dumpstruct", "dumpstruct-of-a-union-member-structure-differs",
+                                  {"got": o2, "workload": "dumpstruct-after-assignment"})
+            ctx.event("dumpstruct_nested_union_members_checked")
+        except Exception as e:  # noqa: BLE001
+            ctx.violation("dumpstruct", f"dumpstruct-raises:{type(e).__name__}",
+                          {"error": lib.exc_sig(e), "workload": "dumpstruct-after-assignment", "what": "structure in a union in a union"})
+
+
 def dumpstruct_forms(ctx):
     """Shapes the generator does not produce: a structure of more than one hex dump line without colour, an enum type
     with a member named `anonymous`, a structure that is a member of a union (handed out through a proxy)."""
@@ -310,12 +360,17 @@ def run(ctx):
     dumpstructs(ctx, 12 if not ctx.thorough else 300)
     if ctx.shard == 0:
         dumpstruct_forms(ctx)
+    if ctx.shard == 1:
+        dumpstruct_after_assignment(ctx)
 
 
 def replay(ctx, detail):
     print("record:", {k: v for k, v in detail.items() if k != "ast"})
     from dissect.cstruct import dumpstruct, hexdump
 
+    if detail.get("workload") == "dumpstruct-after-assignment":
+        dumpstruct_after_assignment(ctx)
+        return
     if detail.get("workload") == "dumpstruct-forms":
         dumpstruct_forms(ctx)
         return
